@@ -166,6 +166,51 @@ func (c *Ctx) ownRun() map[string]*simpleVerdict {
 		}
 		return s + "]"
 	}
+	// an empty list that has spare capacity is a list like any other: the variant grows its own copy, the
+	// caller's later appends to its list stay invisible
+	for _, via := range []string{"VariantFromArray", "NewVariant", "SetAsArray", "SetAsObject"} {
+		m.steps = 0
+		backing := make([]mv, 0, 4)
+		list := mSlice{backing}
+		listIface := mIface{t: types.NewSlice(vt), v: list}
+		var v mv
+		var out mOutcome
+		switch via {
+		case "VariantFromArray":
+			v, out = m.Call(c.MustFunc(pkgVariants, "", "VariantFromArray"), list)
+		case "NewVariant":
+			v, out = m.Call(newVariant, listIface)
+		case "SetAsArray":
+			v, _ = m.Call(c.MustFunc(pkgVariants, "", "EmptyVariant"))
+			_, out = call(v, "SetAsArray", list)
+		case "SetAsObject":
+			v, _ = m.Call(c.MustFunc(pkgVariants, "", "EmptyVariant"))
+			_, out = call(v, "SetAsObject", listIface)
+		}
+		where := "a variant given an empty list with spare capacity through " + via
+		if out.kind == "panic" {
+			note("lists", where+" panics: "+out.why, "")
+			continue
+		}
+		if out.kind != "ok" {
+			note("lists", "", where+": "+out.why)
+			continue
+		}
+		if _, o := call(v, "SetByIndex", int64(0), mkInt(7)); o.kind != "ok" {
+			if o.kind == "panic" {
+				note("lists", where+": SetByIndex(0, 7) panics: "+o.why, "")
+			}
+			continue
+		}
+		// the caller appends to its own list (into the spare capacity it still owns)
+		ext := backing[:1]
+		ext[0] = mkInt(9)
+		if got := elems(v); got != "[Integer:7]" {
+			note("lists", fmt.Sprintf("%s, then grown with SetByIndex(0, 7), holds %s after the caller appended 9 to its own list: the variant lives in the caller's backing array", where, got), "")
+			continue
+		}
+		note("lists", "", "")
+	}
 	for _, via := range []string{"VariantFromArray", "NewVariant", "SetAsArray", "SetAsObject", "Assign-from-variant", "NewVariant-from-variant"} {
 		m.steps = 0
 		a, b, x := mkInt(1), mkInt(2), mkInt(99)
